@@ -64,9 +64,11 @@ def make_problem(cfg):
             return float(np.sum(np.floor(np.abs(z) * 2)))
         return float(np.sum(z ** 2) + 0.5 * np.sum(np.cos(3 * z)))
 
+    off = float(cfg.get("offset", 0.0))
+
     def target(x):
         x = np.asarray(x, dtype=float).ravel()
-        y = base(x)
+        y = base(x) + off
         if mode == "det":
             return y
         if mode in ("auto", "declared"):
@@ -100,6 +102,10 @@ def gen_configs(rng, quick):
         # option values that look like "nothing": random_seed = 0 is a seed, tol_noise = 0 still leaves an exactly repeatable target deterministic
         dict(D=2, mode="det", nfs=10, fixed_seed=0), dict(D=2, mode="declared", nfs=3, fixed_seed=0),
         dict(D=2, mode="det", nfs=10, options=dict(tol_noise=0)),
+        # values of large magnitude whose late improvements are tiny RELATIVE to it, at budgets that end the run in a search-only pass: the
+        # returned iterate is still the last recorded one
+        dict(D=2, mode="det", nfs=10, offset=5000.0, fun="cos", budget_fixed=55), dict(D=2, mode="det", nfs=10, offset=5000.0, fun="cos", budget_fixed=62),
+        dict(D=2, mode="det", nfs=10, offset=-3.0e4, fun="quad", budget_fixed=68), dict(D=3, mode="det", nfs=10, offset=5000.0, fun="cos", budget_fixed=74),
     ]
     if not quick:
         for D in (1, 2, 3):
@@ -119,6 +125,8 @@ def gen_configs(rng, quick):
         noisy = c["mode"] != "det"
         c["sigma"] = rng.choice([1.0, 2.0, 3.0]) if noisy else 0.0
         c["budget"] = rng.choice([60, 80, 100, 120] if c["D"] < 3 else [100, 150]) if noisy else rng.choice([40, 60, 90])
+        if "budget_fixed" in c:
+            c["budget"] = c.pop("budget_fixed")
         c["again"] = bool(c.get("again")) or (not quick and i % 4 == 0)
         out.append(c)
     return out
